@@ -57,9 +57,39 @@ let lcase spec =
   let out = C09Model.loader_loadmany items in
   print_endline (Stdlib.String.concat "," (Stdlib.List.map (fun o -> match o with None -> "nil" | Some a -> string_of_int (i_of a)) out))
 
+(* S <h1,...,hK> <failing keys or -> <op;op;...>    encoder program caches keyed by (type, pv)
+     ops: F<k>:<pv> FindOrCompile | T<k>:<pv> pretouchType | B<k>:<pv>,<k>:<pv>,... pretouchRec batch
+     out: the results of the F ops joined by ';' , then '|' , then GetProgram(k, pv) for k = 1..K, pv = 0,1 joined by ',' *)
+let scase hs failing ops =
+  let tab = Stdlib.Array.of_list (Stdlib.List.map (fun s -> n_of (ios s)) (Stdlib.String.split_on_char ',' hs)) in
+  let nk = Stdlib.Array.length tab in
+  let hash k = let i = i_of k in if i >= 1 && i <= nk then tab.(i - 1) else BinNums.N0 in
+  let bad = if failing = "-" then [] else Stdlib.List.map ios (Stdlib.String.split_on_char ',' failing) in
+  let compile k pv = let i = i_of k in if Stdlib.List.mem i bad then None else Some (n_of (i * 4 + 2 + (if pv then 1 else 0))) in
+  let kp s = match Stdlib.String.split_on_char ':' s with
+    | [k; p] -> (n_of (ios k), p = "1") | _ -> failwith ("bad pair " ^ s) in
+  let h = Stdlib.List.map (fun o ->
+      let body = Stdlib.String.sub o 1 (Stdlib.String.length o - 1) in
+      match o.[0] with
+      | 'F' -> let (k, p) = kp body in Served.HFind (k, p)
+      | 'T' -> let (k, p) = kp body in Served.HPretouch (k, p)
+      | 'B' -> Served.HBatch (if body = "" then [] else Stdlib.List.map kp (Stdlib.String.split_on_char ',' body))
+      | _ -> failwith ("bad op " ^ o)) (if ops = "" then [] else Stdlib.String.split_on_char ';' ops) in
+  match C09Model.enc_hrun hash compile h with
+  | None -> print_endline "P"
+  | Some (st, rs) ->
+    let fr = Stdlib.List.map (fun r -> match r with None -> "E" | Some v -> string_of_int (i_of v)) rs in
+    let served = ref [] in
+    for k = nk downto 1 do
+      served := string_of_int (i_of (C09Model.enc_served hash st (n_of k) false))
+                :: string_of_int (i_of (C09Model.enc_served hash st (n_of k) true)) :: !served
+    done;
+    print_endline (Stdlib.String.concat ";" fr ^ "|" ^ Stdlib.String.concat "," !served)
+
 let () =
   Conv.iter_lines (fun line ->
     match Conv.split_tab line with
     | ["P"; cap; hs; ops] -> pcase cap hs ops
     | ["L"; spec] -> lcase spec
+    | ["S"; hs; failing; ops] -> scase hs failing ops
     | _ -> print_endline "BADCASE")
